@@ -244,3 +244,15 @@ Section C10.
     = knn_scan ltb top k n (d_dir_qt dist feat featq x) skip ns.
   Proof. apply knn_scan_ext. intros t. now apply weights_agree_qt. Qed.
 End C10.
+
+(* The argument order of each call site matters as soon as the metric is not symmetric
+   (mutation "precomputed_index_transposed"): reading [query][train] where the direct branch
+   computes distance_fn(train, query) gives a different number. *)
+Example weights_order_matters :
+  exists (dist : nat -> nat -> nat) (data : nat -> nat) (idx idxq : nat -> nat) (feat featq : nat -> nat),
+    (forall a, feat a = data (idx a)) /\ (forall x, featq x = data (idxq x)) /\
+    d_pre_qt (pre_compute dist data) idx idxq 1 0 <> d_dir_tq dist feat featq 1 0.
+Proof.
+  exists Nat.sub, (fun i => i), (fun i => i), (fun i => i), (fun i => i), (fun i => i).
+  repeat split. cbv. discriminate.
+Qed.
